@@ -28,6 +28,8 @@ pub enum GOp {
 pub struct GateCase {
     pub fn_id: u32,
     pub prefix: Vec<u8>,
+    /// clock advance between the prefix and the start of call A (whole seconds around the ttl)
+    pub prefix_age_ns: i64,
     pub a_key: u8,
     pub suspend_at: u8,
     pub interleaved: Vec<GOp>,
@@ -61,14 +63,26 @@ pub fn decode(bytes: &[u8]) -> GateCase {
     let fd = corpus.by_id(fns[d.choose16(fns.len())]);
     let n_prefix = d.choose(4);
     let prefix: Vec<u8> = (0..n_prefix).map(|_| d.choose(5) as u8).collect();
-    let a_key = if d.chance(1, 5) { d.choose(5) as u8 } else { 5 + d.choose(2) as u8 };
+    let prefix_age_ns = match (fd.ttl, d.choose(4)) {
+        (Some(t), 1) | (Some(t), 2) => t as i64 * SEC,
+        (Some(t), 3) => (t as i64 - 1) * SEC,
+        _ => 0,
+    };
+    // with an aged prefix, call A mostly targets a key the prefix cached (an expired entry)
+    let a_key = if prefix_age_ns > 0 && !prefix.is_empty() && d.chance(2, 3) {
+        prefix[d.choose(prefix.len())]
+    } else if d.chance(1, 5) {
+        d.choose(5) as u8
+    } else {
+        5 + d.choose(2) as u8
+    };
     let suspend_at = d.choose(fd.gates as usize) as u8;
     let n_inter = 1 + d.choose(5);
     let interleaved = (0..n_inter).map(|_| dec_op(&mut d, a_key, fd.ttl)).collect();
     let resume = d.chance(1, 2);
     let n_suffix = d.choose(5);
     let suffix = (0..n_suffix).map(|_| dec_op(&mut d, a_key, fd.ttl)).collect();
-    GateCase { fn_id: fd.id, prefix, a_key, suspend_at, interleaved, resume, suffix }
+    GateCase { fn_id: fd.id, prefix, prefix_age_ns, a_key, suspend_at, interleaved, resume, suffix }
 }
 
 pub fn describe(bytes: &[u8], _t: Tier) -> Value {
@@ -153,6 +167,9 @@ pub fn run_case(bytes: &[u8], _t: Tier) -> CaseOut {
                     *result.borrow_mut() = Some(v);
                     return;
                 }
+            }
+            if case.prefix_age_ns > 0 {
+                vrt::clock::advance_ns(case.prefix_age_ns);
             }
             // start A and poll it to the chosen boundary
             stage.set("start");
